@@ -361,6 +361,17 @@ Definition rule_flags (p : rprim) (args : list mvalue) (out : value) : option fl
   | RMul => let base := if both_bool a b then clear_sorted (mv_f b) else fl_none in
             Some (handle_pre true out base (pre_signed None a b false) (pre_signed None b a true))
   | RDiv => Some (handle_pre true out fl_none (pre_signed (Some true) a b false) (pre_signed (Some true) b a true))
+  (* not (value.rs:1815-1824): numbers / boolean bytes / complex in place, other bytes into a
+     fresh array; then or_sorted_flags_rev with the marks taken before *)
+  | RNot =>
+      let base := match mv_v a with
+                  | VByte _ _ => if f_bool (mv_f a) then clear_sorted (mv_f a) else fl_none
+                  | _ => clear_sorted (mv_f a) end in
+      Some (or_sorted_rev true out base (sorted_part (mv_f a)))
+  (* scalar_abs (value.rs:1825-1833): numbers in place, bytes and complex into a fresh array; no marks *)
+  | RAbs => Some (match mv_v a with VNum _ _ => clear_sorted (mv_f a) | _ => fl_none end)
+  (* sign (value.rs:1834-1842): numbers, bytes, complex in place *)
+  | RSign => Some (clear_sorted (mv_f a))
   | _ => None
   end.
 
